@@ -208,7 +208,7 @@ func provablyDistinct(a, b *Term) bool {
 		return a.allocID != b.allocID
 	}
 	aSub, bSub := strings.HasPrefix(a.op, "|sub:"), strings.HasPrefix(b.op, "|sub:")
-	aEl, bEl := a.op == "eaddr", b.op == "eaddr"
+	aEl, bEl := a.op == "eaddr" || a.op == "selem", b.op == "eaddr" || b.op == "selem"
 	switch {
 	case aSub && bSub:
 		if a.op != b.op {
@@ -220,10 +220,10 @@ func provablyDistinct(a, b *Term) bool {
 	case (aSub || aEl) && b.allocID > 0, (bSub || bEl) && a.allocID > 0:
 		return true // allocation results have tag 0
 	case aEl && bEl:
-		if provablyDistinct(a.args[0], b.args[0]) {
+		if a.op == b.op && a.op == "eaddr" && provablyDistinct(a.args[0], b.args[0]) {
 			return true
 		}
-		if same(a.args[0], b.args[0]) {
+		if a.op == b.op && same(a.args[0], b.args[0]) {
 			return distinctInts(a.args[1], b.args[1])
 		}
 	}
